@@ -210,6 +210,28 @@ theorem warns_iff_undeclared (reg : Registry) (parent : Term) (m : String) (i : 
   | none => rfl
   | some j => simp [determineTypeMf, hf] at h
 
+/-- **C10.undeclared_call_warns** — *every* call of an undeclared method, wherever it stands in
+a chain and whatever follows, is typed `double` and leaves its (class, method) in the warnings of
+the translation it belongs to. -/
+theorem undeclared_call_warns (reg : Registry) (s s' sEnd : ChainSt) (m : String) (arg : Option Nat)
+    (rest : List Step) (h : step reg s (.call m arg) = .ok s') (hu : reg.find s.ty.term.name m = none)
+    (hrun : runChain reg rest s' = .ok sEnd) :
+    (s.ty.term.name, m) ∈ sEnd.warns ∧ s'.ty = .value { name := "double", depth := 0 } := by
+  have hb : s.ty.term.name ∉ Generated.C10.baseTypes := by
+    intro hb; simp [step, determineTypeMf, hu, hb] at h
+  simp only [step, determineTypeMf, hu, hb, if_false, Except.ok.injEq] at h
+  subst h
+  refine ⟨(runChain_mono reg rest _ sEnd hrun).1 _ (by simp), ?_⟩
+  simp [fallbackInfo, Generated.C10.fallbackType, Generated.C10.fallbackDepth]
+
+/-- **C10.translation_history_free** — in a process that translates several queries one after
+the other, the outcome of each translation — code, column type and the warnings it logs — is the
+one it has alone: an earlier translation that assumed `double` for a method does not silence the
+warning of a later one. -/
+theorem translation_history_free (defaults : Registry) (pre post : List QueryCol) (q : QueryCol) :
+    (translateAll defaults (pre ++ q :: post))[pre.length]? = some (translateOne defaults q) := by
+  simp [translateAll]
+
 /-! ## 4. metadata → registry -/
 
 /-- **C10.md_keys** — the method branch of `process_metadata` reads exactly these keys (the list
